@@ -45,6 +45,7 @@ def spell(code, W, ns):
         "'Any'": lambda: "typing.Any", "'object'": lambda: "object", "'Ann[A]'": lambda: "typing.Annotated[KA, 'meta']",
         "'tU[A,B]'": lambda: "typing.Union[KA, KB]", "'(A,B)'": lambda: "(KA, KB)", "'Ann[A|B]'": lambda: "typing.Annotated[KA | KB, 1]",
         "'A|None'": lambda: "KA | None", "'Lit[0,1]'": lambda: "typing.Literal[0, 1]", "'List[A]'": lambda: "typing.List[KA]",
+        "Ann[Any]": lambda: typing.Annotated[typing.Any, "meta"], "Ann[object]": lambda: typing.Annotated[object, 1],
         "Lit[0,1]": lambda: typing.Literal[0, 1], "Lit[1,0]": lambda: typing.Literal[1, 0],
         "Lit[0,'a']": lambda: typing.Literal[0, "a"], "Lit['a',0]": lambda: typing.Literal["a", 0],
         "Lit[1,2,3]": lambda: typing.Literal[1, 2, 3], "Lit[3,1,2]": lambda: typing.Literal[3, 1, 2],
@@ -60,7 +61,7 @@ PAIRS = [
     ("oU[A,B]", "oU[B,A]"), ("tU[A,B,C]", "C|A|B"), ("tU[A,B,C]", "(B,C,A)"), ("A|B", "'A|B'"), ("A|B", "Ann[A|B]"),
     ("Opt[A]", "A|None"), ("Opt[A]", "None|A"), ("Opt[A]", "tU[A,None]"), ("Opt[A]", "(A,NoneType)"), ("Opt[A]", "'Opt[A]'"),
     ("missing", "Any"), ("missing", "object"), ("Any", "object"),
-    ("Ann[A]", "A"), ("'A'", "A"), ("'Any'", "object"), ("'Any'", "missing"), ("'object'", "Any"), ("'Ann[A]'", "A"), ("'Ann[A]'", "Ann[A]"),
+    ("Ann[A]", "A"), ("'A'", "A"), ("Ann[Any]", "Any"), ("Ann[Any]", "missing"), ("Ann[object]", "object"), ("'Any'", "object"), ("'Any'", "missing"), ("'object'", "Any"), ("'Ann[A]'", "A"), ("'Ann[A]'", "Ann[A]"),
     ("'tU[A,B]'", "A|B"), ("'(A,B)'", "tU[A,B]"), ("'Ann[A|B]'", "A|B"), ("'A|None'", "Opt[A]"), ("'Lit[0,1]'", "Lit[1,0]"), ("'List[A]'", "list[A]"),
     ("list[A]", "List[A]"), ("list[A]", "'list[A]'"),
     ("Lit[0,1]", "Lit[1,0]"), ("Lit[0,'a']", "Lit['a',0]"), ("Lit[1,2,3]", "Lit[3,1,2]"),
